@@ -64,7 +64,7 @@ type State struct {
 	cells     map[string]string
 	defers    []*deferRec
 	panicking bool
-	acq       *State // heap snapshot taken right after the most recent lock acquisition (for acq(...) in contracts)
+	acq       *State    // heap snapshot taken right after the most recent lock acquisition (for acq(...) in contracts)
 	priv      []privBox // boxes of captured locals that never escape, allocated on every path to here (escape.go)
 }
 
@@ -124,25 +124,25 @@ type loopInfo struct {
 }
 
 type Exec struct {
-	w        *World
-	sc       *Script
-	heapSort map[string]string
-	nframe   int
-	counts   map[string]int // obligation ordinal per (unit,kind)
-	unit     string
-	errs     []string
-	lockCls  map[string]string
-	inlineDepth int
-	siteCount map[string]int
+	w            *World
+	sc           *Script
+	heapSort     map[string]string
+	nframe       int
+	counts       map[string]int // obligation ordinal per (unit,kind)
+	unit         string
+	errs         []string
+	lockCls      map[string]string
+	inlineDepth  int
+	siteCount    map[string]int
 	pendingBoxes []boxedArg
-	cellFns  map[string]Val
+	cellFns      map[string]Val
 	heapElemType map[string]types.Type
-	dual     bool
-	curCall  ssa.Instruction
-	preAlloc string
-	calledNamed map[string]bool // contract keys mentioned in called("...") clauses of this unit
-	cellTypes map[string]types.Type // shared cells (escape.go): key -> type
-	succNamed map[string]bool // keys mentioned in succeeded("...") clauses of this unit
+	dual         bool
+	curCall      ssa.Instruction
+	preAlloc     string
+	calledNamed  map[string]bool       // contract keys mentioned in called("...") clauses of this unit
+	cellTypes    map[string]types.Type // shared cells (escape.go): key -> type
+	succNamed    map[string]bool       // keys mentioned in succeeded("...") clauses of this unit
 }
 
 type privBox struct{ heap, ref string }
